@@ -281,7 +281,14 @@ def run(ck):
                    f"inside `with self._enable_event`" if ok else
                    f"early initialisation: full=True: {full_ok}; range test truth table {truth}; "
                    f"guard lifted: {in_with}")
-        ck.ob(R2, f"{ev.fid} :: early initialisation", ok, why, ev, early[0].ast if early else ev.node)
+        # the abstract run of SBlock.event (rules/eventrun.py) decides this clause on any layout; the shape
+        # reading above is its statement-naming back-up
+        from rules.eventrun import sblock_event_run
+        er_ = sblock_event_run(ck)
+        run_init_ok = er_['applicable'] and not er_['bad'].get('init')
+        if run_init_ok and not ok:
+            why = "[decided by the abstract run of SBlock.event] " + why
+        ck.ob(R2, f"{ev.fid} :: early initialisation", ok or run_init_ok, why, ev, early[0].ast if early else ev.node)
         for hook, allowed in (('init_regular', {isb.fid}), ('init_from_value', {isb.fid}),
                               ('init_from_persistent_data', {isb.fid}),
                               ('init_async', {f'{CIRC}._init_sblocks_async'})):
